@@ -132,6 +132,16 @@ func cmdVerify(args []string) {
 			fr.VC.canaries = append(fr.VC.canaries, o)
 			feas = append(feas, solveJob{fr.VC, o, fr.VC.heap0All()})
 		}
+		for _, ln := range sortedKeys(fr.VC.loopFeas) {
+			for i, l := range fr.VC.loopFeas[ln] {
+				o := &Obligation{Name: fmt.Sprintf("%s#canary:%s.body%d", fr.Key, ln, i+1), Kind: "loopcanary", Fn: fr.Key, lines: l, Goal: tFalse, Modules: map[string]bool{}, Info: ln}
+				for m := range fr.VC.modules {
+					o.Modules[m] = true
+				}
+				fr.VC.loopCanaries = append(fr.VC.loopCanaries, o)
+				feas = append(feas, solveJob{fr.VC, o, fr.VC.heap0All()})
+			}
+		}
 	}
 	dischargeAll(jobs, work, 4, 15, false, 16)
 	dischargeAll(feas, work+"/canary", 2, 2, false, 16)
@@ -162,6 +172,10 @@ func cmdVerify(args []string) {
 			fmt.Printf(" deadpaths %d/%d", dead, len(fr.VC.canaries))
 			if dead == len(fr.VC.canaries) && dead > 0 {
 				fmt.Printf("  VACUOUS: every return path is infeasible")
+				bad++
+			}
+			for _, ln := range fr.VC.deadLoops() {
+				fmt.Printf("  DEAD-LOOP-BODY: %s", ln)
 				bad++
 			}
 		}
@@ -195,3 +209,35 @@ func cmdVerify(args []string) {
 
 // heap0All: entry-state constants created on any path of this VC.
 func (vc *VC) heap0All() map[string]Term { return vc.heap0shared }
+
+// deadLoops: loops all of whose body paths (arrivals at the back edge) are infeasible, and that the contract does not declare dead.
+func (vc *VC) deadLoops() []string {
+	by := map[string][2]int{}
+	for _, o := range vc.loopCanaries {
+		c := by[o.Info]
+		c[1]++
+		if o.Status == "proved" {
+			c[0]++
+		}
+		by[o.Info] = c
+	}
+	var out []string
+	for _, ln := range sortedKeys(by) {
+		if by[ln][0] == by[ln][1] && by[ln][1] > 0 && !vc.declaredDead(ln) {
+			out = append(out, ln)
+		}
+	}
+	return out
+}
+
+func (vc *VC) declaredDead(loopName string) bool {
+	if vc.fc == nil {
+		return false
+	}
+	for _, c := range vc.fc.clauses("dead_loop") {
+		if strings.TrimSpace(c.Text) == loopName {
+			return true
+		}
+	}
+	return false
+}
